@@ -181,14 +181,19 @@ func (w *World) PosCol(p token.Pos) string {
 
 // Func finds a package-level function by name.
 func (w *World) Func(pkg *ssa.Package, name string) *ssa.Function {
-	f := pkg.Func(name)
+	f := w.FuncOpt(pkg, name)
 	if f == nil {
-		infra("anchor function %s.%s not found", pkg.Pkg.Path(), name)
+		infra("anchor function %s.%s not found (neither by name nor structurally)", pkg.Pkg.Path(), name)
 	}
 	return f
 }
 
-func (w *World) FuncOpt(pkg *ssa.Package, name string) *ssa.Function { return pkg.Func(name) }
+func (w *World) FuncOpt(pkg *ssa.Package, name string) *ssa.Function {
+	if f := pkg.Func(name); f != nil {
+		return f
+	}
+	return w.resolveAnchor(pkg, name, 0)
+}
 
 // Method finds the method name on the named type tname of pkg (value or
 // pointer receiver).
@@ -346,4 +351,150 @@ func (w *World) moduleVersion(path string) string {
 		}
 	})
 	return ver
+}
+
+// ---------------------------------------------------------------- anchors
+//
+// Rules are anchored at unexported helper functions. A maintainer may rename
+// those; the exported API is stable. Func first looks the helper up by its
+// current name and otherwise resolves it structurally from an exported entry
+// point (unique in-package callee with a given result shape).
+
+type anchorSpec struct {
+	fromType, fromFunc string                      // caller: method (type, name) or package func ("", name)
+	pick               func(fn *ssa.Function) bool // which in-package callee
+}
+
+func sigString(fn *ssa.Function) string {
+	return types.TypeString(fn.Signature, func(p *types.Package) string { return "" })
+}
+
+var anchorTable = map[string]anchorSpec{
+	"readDiff":   {"", "ReadDiffString", func(f *ssa.Function) bool { return f.Signature.Results().Len() == 2 }},
+	"unmarshal":  {"", "ReadJsonString", func(f *ssa.Function) bool { return f.Signature.Params().Len() == 2 }},
+	"renderJson": {"jsonString", "Json", func(f *ssa.Function) bool { return f.Signature.Params().Len() == 1 && f.Signature.Recv() == nil }},
+	"renderYaml": {"jsonString", "Yaml", func(f *ssa.Function) bool { return f.Signature.Params().Len() == 1 && f.Signature.Recv() == nil }},
+	"hash":       {"jsonString", "hashCode", func(f *ssa.Function) bool { return f.Signature.Recv() == nil }},
+	"dispatch":   {"jsonArray", "Equals", func(f *ssa.Function) bool { return f.Signature.Recv() == nil && f.Signature.Params().Len() == 2 }},
+	"patchAll":   {"jsonString", "Patch", func(f *ssa.Function) bool { return f.Signature.Recv() == nil }},
+	"patch":      {"jsonString", "patch", func(f *ssa.Function) bool { return f.Signature.Recv() == nil }},
+	"diff":       {"jsonString", "diff", func(f *ssa.Function) bool { return f.Signature.Recv() == nil }},
+	"readPatchDiffElement": {"", "ReadPatchString", func(f *ssa.Function) bool {
+		return f.Signature.Recv() == nil && f.Signature.Results().Len() == 3
+	}},
+	"readMergeInto": {"", "ReadMergeString", func(f *ssa.Function) bool {
+		return f.Signature.Recv() == nil && f.Signature.Results().Len() == 1 && f.Signature.Params().Len() == 3
+	}},
+	"writePointer": {"Diff", "RenderPatch", func(f *ssa.Function) bool {
+		return f.Signature.Recv() == nil && f.Signature.Results().Len() == 2 && f.Signature.Params().Len() == 1 && strings.HasPrefix(f.Signature.Params().At(0).Type().String(), "[]")
+	}},
+	"setPatchDiffElementContext": {"", "readPatchDiffElement", func(f *ssa.Function) bool {
+		return f.Signature.Recv() == nil && f.Signature.Params().Len() == 2 && f.Signature.Results().Len() == 2
+	}},
+	"readPointer": {"", "readPatchDiffElement", func(f *ssa.Function) bool {
+		return f.Signature.Recv() == nil && f.Signature.Params().Len() == 1 && f.Signature.Results().Len() == 2 && f.Signature.Params().At(0).Type().String() == "string"
+	}},
+	"sameContainerType": {"jsonList", "diffRest", func(f *ssa.Function) bool {
+		return f.Signature.Recv() == nil && f.Signature.Results().Len() == 1 && f.Signature.Params().Len() == 3 && f.Signature.Results().At(0).Type().String() == "bool"
+	}},
+}
+
+// resolveAnchor: structural fallback for a helper that is not found by name.
+func (w *World) resolveAnchor(pkg *ssa.Package, name string, depth int) *ssa.Function {
+	spec, ok := anchorTable[name]
+	if !ok || depth > 3 {
+		return nil
+	}
+	var from *ssa.Function
+	if spec.fromType != "" {
+		from = w.MethodOpt(pkg, spec.fromType, spec.fromFunc)
+	} else {
+		from = pkg.Func(spec.fromFunc)
+		if from == nil {
+			from = w.resolveAnchor(pkg, spec.fromFunc, depth+1)
+		}
+	}
+	if from == nil || from.Blocks == nil {
+		return nil
+	}
+	var found []*ssa.Function
+	seen := map[*ssa.Function]bool{}
+	withClosures(from, func(f *ssa.Function) {
+		for _, b := range f.Blocks {
+			for _, in := range b.Instrs {
+				c, ok := in.(ssa.CallInstruction)
+				if !ok {
+					continue
+				}
+				sf := staticCallee(c)
+				if sf == nil || sf.Parent() != nil || fnPkg(sf) != pkg.Pkg || seen[sf] || sf.Blocks == nil {
+					continue
+				}
+				seen[sf] = true
+				if spec.pick(sf) {
+					found = append(found, sf)
+				}
+			}
+		}
+	})
+	if len(found) == 1 {
+		return found[0]
+	}
+	return nil
+}
+
+// helperIs: fn plays the named helper role — found by its current name, or,
+// if a maintainer renamed it, by its shape.
+func (w *World) helperIs(fn *ssa.Function, role string) bool {
+	if fn == nil {
+		return false
+	}
+	fn = origin(fn)
+	if fn.Name() == role {
+		return true
+	}
+	pkgT := fnPkg(fn)
+	if pkgT == nil {
+		return false
+	}
+	var pkg *ssa.Package
+	for _, p := range w.SSA {
+		if p.Pkg == pkgT {
+			pkg = p
+		}
+	}
+	if pkg == nil {
+		return false
+	}
+	if pkg.Func(role) != nil {
+		return false // the name exists and it is another function
+	}
+	if _, inTable := anchorTable[role]; inTable {
+		return w.resolveAnchor(pkg, role, 0) == fn
+	}
+	sig := fn.Signature
+	assertsTo := func(tn string) bool {
+		found := false
+		if fn.Blocks == nil {
+			return false
+		}
+		allInstrs(fn, func(in ssa.Instruction) {
+			if ta, ok := in.(*ssa.TypeAssert); ok && typeName(ta.AssertedType) == tn {
+				found = true
+			}
+		})
+		return found
+	}
+	oneNodeToBool := sig.Recv() == nil && sig.Params().Len() == 1 && sig.Results().Len() == 1 &&
+		typeName(sig.Params().At(0).Type()) == "JsonNode" && sig.Results().At(0).Type().String() == "bool"
+	switch role {
+	case "isVoid":
+		return oneNodeToBool && assertsTo("voidNode")
+	case "isNull":
+		return oneNodeToBool && assertsTo("jsonNull")
+	case "nodeList":
+		return sig.Recv() == nil && sig.Variadic() && sig.Params().Len() == 1 && sig.Results().Len() == 1 &&
+			strings.HasSuffix(sig.Results().At(0).Type().String(), "JsonNode") && strings.HasPrefix(sig.Results().At(0).Type().String(), "[]")
+	}
+	return false
 }
